@@ -48,6 +48,8 @@ def check(src, rep):
     emit(rep, m, skeleton(m), RULE)
     emit(rep, m, frozen_after_emit(m), RULE)
     emit(rep, m, buffer_contracts(m), RULE)
+    from sa.hdlcref import raw_history_values
+    emit(rep, m, raw_history_values(m), {"raw-value": "R1"})
     from sa.cross import include
     include(rep, src, "C01", {"R1", "R2", "R3", "R4"}, "R5", "delivered frames are valid with exact payload and header fields (address fields of 1 to 4 octets, segmentation bit, format type)")
     rep.floor("reference rows matched", sum(1 for r in conf if r.kind == "ok" and r.instance in DEMANDED_ROWS) + sum(1 for r in conf if r.kind == "bad" and r.instance in DEMANDED_ROWS), 9)
